@@ -258,7 +258,7 @@ def run(ctx):
         if res["n_mismatch"] > len(res["mismatches"][:MAX_REPORTED]):
             lib.log("note: %d replayed cases disagree in total" % res["n_mismatch"])
         executed += res["executed"]
-        distinct_uris += res["distinct_uris"]
+        distinct_uris = max(distinct_uris, res["distinct_uris"])   # the runs overlap: count the larger one only
         extra_recs += read_ndjson(extra_path)
         if tag == "a" and not ctx.violations and (res["accepted"] == 0 or res["rejected"] == 0):
             raise lib.ToolError("vacuity: the parser %s every replayed URI" % ("rejected" if res["accepted"] == 0 else "accepted"))
@@ -304,11 +304,13 @@ def run(ctx):
              "TransactionRequest::from_uri on 3 networks and compared with Verdict/Denote; V: every driver record "
              "(constructed requests rendered and parsed back, token-generated and mutated URIs, memo conversions, "
              "constructor calls) is validated by TLC against Trace_Zip321. distinct_nontrivial = distinct concrete URI "
-             "strings replayed + distinct driver inputs; states/transitions also count the theorem cases of MC_Zip321"
+             "strings replayed (of the largest enumeration run) + distinct driver inputs; states/transitions also count "
+             "the theorem cases of MC_Zip321"
              % runs[-1][1][0],
         evaluations=executed + len(recs) + len(extra_recs), distinct_nontrivial=distinct_uris + distinct_v,
-        extra={"exhaustive": False, "bounds": {"shape_max_items": [r[1][0] for r in runs], "index_texts": 24,
-                                               "amount_texts": 57, "pct_token_seq": runs[0][1][2]}},
+        extra={"exhaustive": False, "bounds": {"shape_max_items": [r[1][0] for r in runs],
+                                               "shape_index_texts": [r[1][1] for r in runs],
+                                               "pct_token_seq": runs[0][1][2]}},
         assumptions=[
             "a recipient's kind (can receive a memo / transparent-only) is what the harness chose when it built the "
             "address string from raw bytes with zcash_address' constructors; address strings the harness did not build "
